@@ -445,6 +445,9 @@ pub struct NetCfg {
     pub skipacc: Acc,
     /// (outof, into, iterations, inskips)
     pub loops: Vec<(usize, usize, usize, bool)>,
+    /// Leave accumulations that concern nothing in the network at the configured values
+    /// (`lib_build::build` otherwise sets them to arbitrary values).
+    pub keep_default_accumulations: bool,
     pub loopacc: Acc,
 }
 
@@ -456,6 +459,7 @@ impl NetCfg {
             skips: Vec::new(),
             skipacc: Acc::Add,
             loops: Vec::new(),
+            keep_default_accumulations: false,
             loopacc: Acc::Mean,
         }
     }
